@@ -59,6 +59,8 @@ def enabled(st, contents):
     if st["q"] is not None:
         ops += [["rename_qp"], ["copy2_qp"]]
     ops += [["copy2_pq"], ["hash", "file"], ["hash", "dir"]]
+    if st["q"] is not None:
+        ops.append(["hash", "set"])  # a multi-path file set SetOf[File](p, q)
     return ops
 
 
@@ -152,14 +154,18 @@ class World:
             if f is not None:
                 if path.read_bytes() != CONTENTS[f[0]]:
                     raise RuntimeError(f"model and file system disagree about the content of {path.name} after {op}")
-                os.utime(path, ns=(f[1], f[1]))
-        os.utime(self.D, ns=(new["d"], new["d"]))
+                if path.lstat().st_mtime_ns != f[1]:  # untouched files keep their ctime (part of the cache key)
+                    os.utime(path, ns=(f[1], f[1]))
+        if self.D.lstat().st_mtime_ns != new["d"]:
+            os.utime(self.D, ns=(new["d"], new["d"]))
 
     def cache_content(self):
         return {n: (self.hc / n).read_bytes().hex() for n in sorted(os.listdir(self.hc)) if not n.endswith(".lock")}
 
     def target(self, what):
-        from fileformats.generic import File, Directory
+        from fileformats.generic import File, Directory, SetOf
+        if what == "set":
+            return SetOf[File]([File(self.p), File(self.q)])
         return File(self.p) if what == "file" else Directory(self.D)
 
     def observe(self, what):
@@ -202,11 +208,14 @@ def dir_content(st):
 def classify(init, hist, what):
     """narrow class: the observed object has the same (path, mtime) cache key as at an EARLIER observation of this
     history, but its content differs (the persistent cache key did not change although the content did)"""
+    if what == "set":
+        return None
     st = init
     seen = []  # (what, key mtime, content)
     for op in hist[:-1]:
         if op[0] == "hash":
-            seen.append((op[1], st["p"][1] if op[1] == "file" else st["d"], st["p"][0] if op[1] == "file" else dir_content(st)))
+            if op[1] != "set":
+                seen.append((op[1], st["p"][1] if op[1] == "file" else st["d"], st["p"][0] if op[1] == "file" else dir_content(st)))
         else:
             st = model_apply(st, op)
     now_key = st["p"][1] if what == "file" else st["d"]
@@ -220,7 +229,7 @@ def judge(init, hist, what, shared, alone, seam="hash_function"):
     if shared == alone:
         return None
     sig = classify(init, hist, what)  # the same structural class whatever the seam / process that observes it
-    return (sig, f"{seam} of {'File(p)' if what == 'file' else 'Directory(D)'} after {fmt(hist[:-1])} with the shared persistent "
+    return (sig, f"{seam} of {dict(file='File(p)', dir='Directory(D)', set='SetOf[File](p, q)')[what]} after {fmt(hist[:-1])} with the shared persistent "
                  f"cache = {shared}, with an empty persistent cache directory = {alone} (the hash of the current content)")
 
 
@@ -362,9 +371,14 @@ out = []
 for line in open(sys.argv[1]):
     job = json.loads(line)
     base = Path(job["base"])
-    tgt = File(base / "D" / "p.dat") if job["what"] == "file" else Directory(base / "D")
+    def mk():
+        if job["what"] == "set":
+            from fileformats.generic import SetOf
+            return SetOf[File]([File(base / "D" / "p.dat"), File(base / "D" / "q.dat")])
+        return File(base / "D" / "p.dat") if job["what"] == "file" else Directory(base / "D")
+    tgt = mk()
     shared = H.hash_function(tgt, persistent_cache=base / "hashcache")
-    tgt = File(base / "D" / "p.dat") if job["what"] == "file" else Directory(base / "D")
+    tgt = mk()
     empty = base / "emptycache"
     alone = H.hash_function(tgt, persistent_cache=empty)
     out.append([shared, alone])
@@ -431,10 +445,14 @@ def xp_histories(thorough):
     contents = list(CONTENTS)[:3]
     out = []
     for init_idx, init in enumerate(initial_states(thorough)):
-        for what in ("file", "dir"):
+        for what in ("file", "dir", "set"):
+            if what == "set" and init["q"] is None:
+                continue
             for k in range(0, (3 if thorough else 1) + 1):
                 def rec(st, hist, left):
                     if left == 0:
+                        if what == "set" and st["q"] is None:
+                            return  # q was renamed away: no two-file set to observe
                         out.append((init_idx, [["hash", what]] + hist + [["hash", what]]))
                         return
                     for op in enabled(st, contents):
